@@ -368,15 +368,31 @@ pub fn generate(rng: &mut Rng, cfg: &Config) -> Program {
             decl.push_str("[[rssl::bindless]]\n");
             features.push("bindless".into());
         }
+        let array = array.map(|a| if bindless { 1024 } else { a });
+        // a share of the resources is declared through a typedef of the object type or of the whole array type
+        let via_typedef = if make_static || !rng.chance(1, 5) { 0 } else if array.is_some() && rng.chance(1, 2) { 2 } else { 1 };
+        let mut type_text = kind.to_string();
+        let mut array_in_type = false;
+        if via_typedef == 1 {
+            decl = format!("typedef {} ResType{};\n{}", kind, i, decl);
+            type_text = format!("ResType{}", i);
+            features.push("resource-through-typedef".into());
+        } else if via_typedef == 2 {
+            decl = format!("typedef {} ResArray{}[{}];\n{}", kind, i, array.unwrap_or(1), decl);
+            type_text = format!("ResArray{}", i);
+            array_in_type = true;
+            features.push("resource-through-array-typedef".into());
+        }
         if rng.chance(1, 2) {
             decl.push_str("const ");
         }
-        decl.push_str(kind);
+        decl.push_str(&type_text);
         decl.push(' ');
         decl.push_str(&name);
-        let array = array.map(|a| if bindless { 1024 } else { a });
         if let Some(a) = array {
-            decl.push_str(&format!("[{}]", a));
+            if !array_in_type {
+                decl.push_str(&format!("[{}]", a));
+            }
             features.push("resource-array".into());
         }
         match (group, style) {
